@@ -27,6 +27,16 @@ pub struct AsyncDelayStore {
     pub failed: std::sync::atomic::AtomicBool,
     pub max_delay_ms: u64,
     pub log: Mutex<Vec<String>>,
+    /// crash points between store writes: (number of flushes that had returned, store content) after every write
+    pub keep_snapshots: std::sync::atomic::AtomicBool,
+    pub snap: Mutex<SnapState>,
+}
+
+#[derive(Default)]
+pub struct SnapState {
+    pub acks: usize,
+    /// (flushes that had returned, write counter, the write) for every successful write, in the order they reached the store
+    pub log: Vec<(usize, u64, crate::storesim::WriteRec)>,
 }
 
 impl AsyncDelayStore {
@@ -41,7 +51,28 @@ impl AsyncDelayStore {
             failed: std::sync::atomic::AtomicBool::new(false),
             max_delay_ms,
             log: Mutex::new(vec![]),
+            keep_snapshots: std::sync::atomic::AtomicBool::new(false),
+            snap: Mutex::new(SnapState::default()),
         }
+    }
+    /// the driver calls this when a flush has returned
+    pub fn acknowledge(&self) {
+        self.snap.lock().unwrap().acks += 1;
+    }
+    /// apply one write to the inner store; with crash points enabled the write and the snapshot after it are
+    /// one atomic step with respect to other writes and to acknowledgements
+    fn apply(&self, f: impl FnOnce(&MemoryStore) -> Result<(), StorageError>, rec: impl FnOnce(&MemoryStore) -> crate::storesim::WriteRec) -> Result<(), StorageError> {
+        if !self.keep_snapshots.load(Ordering::SeqCst) {
+            return f(&self.inner);
+        }
+        let mut g = self.snap.lock().unwrap();
+        let r = f(&self.inner);
+        if r.is_ok() {
+            let k = self.writes.load(Ordering::SeqCst);
+            let acks = g.acks;
+            g.log.push((acks, k, rec(&self.inner)));
+        }
+        r
     }
     fn delay_for(&self, key: &StoreKey, len: usize) -> u64 {
         if !self.armed.load(Ordering::SeqCst) || self.max_delay_ms == 0 {
@@ -105,18 +136,18 @@ impl AsyncListableStorageTraits for AsyncDelayStore {
 impl AsyncWritableStorageTraits for AsyncDelayStore {
     async fn set(&self, key: &StoreKey, value: Bytes) -> Result<(), StorageError> {
         self.before_write(key, value.len()).await?;
-        self.inner.set(key, value)
+        { let copy = value.clone(); self.apply(|st| st.set(key, value), |_| crate::storesim::WriteRec::Set(key.clone(), copy)) }
     }
     async fn set_partial_many<'a>(&'a self, key: &StoreKey, offset_values: OffsetBytesIterator<'a>) -> Result<(), StorageError> {
         self.before_write(key, 0).await?;
-        self.inner.set_partial_many(key, offset_values)
+        self.apply(|st| st.set_partial_many(key, offset_values), |st| crate::storesim::WriteRec::Set(key.clone(), st.get(key).ok().flatten().unwrap_or_default()))
     }
     async fn erase(&self, key: &StoreKey) -> Result<(), StorageError> {
         self.before_write(key, 0).await?;
-        self.inner.erase(key)
+        self.apply(|st| st.erase(key), |_| crate::storesim::WriteRec::Erase(key.clone()))
     }
     async fn erase_prefix(&self, prefix: &StorePrefix) -> Result<(), StorageError> {
-        self.inner.erase_prefix(prefix)
+        self.apply(|st| st.erase_prefix(prefix), |_| crate::storesim::WriteRec::ErasePrefix(prefix.clone()))
     }
     fn supports_set_partial(&self) -> bool {
         self.inner.supports_set_partial()
